@@ -49,6 +49,25 @@ _SMOKE_DOC = None
 _CANON: dict[str, Any] | None = None
 
 
+_ENV_KEYS: list[str] | None = None
+
+
+def env_keys() -> list[str]:
+    """Names of environment variables the package's source reads (found by scanning it)."""
+    global _ENV_KEYS
+    if _ENV_KEYS is None:
+        import re
+
+        pat = re.compile(r"""(?:environ(?:\.get)?\s*[\[(]|getenv\s*\()\s*["']([A-Za-z_][A-Za-z0-9_]*)["']""")
+        found: set[str] = set()
+        for f in sorted(os.listdir(env.PKG_DIR)):
+            if f.endswith(".py"):
+                with open(os.path.join(env.PKG_DIR, f), encoding="utf-8") as fh:
+                    found.update(pat.findall(fh.read()))
+        _ENV_KEYS = sorted(found)
+    return _ENV_KEYS
+
+
 def modules() -> list[str]:
     return sorted(f[:-3] for f in os.listdir(env.PKG_DIR) if f.endswith(".py") and f != "__init__.py")
 
@@ -104,8 +123,17 @@ def make_plan(seed: int, tier: str, index: int) -> dict[str, Any]:
         k = r.choice([len(ms), len(ms), r.randint(3, len(ms))])
         imports = [[m, r.choice(FORMS)] for m in ms[:k]]
         kind = "seeded-permutation"
-    return {"property": PROP, "seed": seed, "imports": imports, "kind": kind,
+    plan = {"property": PROP, "seed": seed, "imports": imports, "kind": kind,
             "hashseed": r.randint(0, 2**31 - 1)}
+    if index % 5 == 2:
+        # warnings are errors and nothing is compiled yet (an empty private cache of compiled
+        # files): whatever the compiler or the module bodies warn about stops the import
+        plan["werror_cold"] = True
+    keys = env_keys()
+    if keys and index % 3 == 1:
+        # the process environment: every variable the package reads is present with an odd value
+        plan["environ"] = {k: r.choice(["", "debug", "10", "0", "true", "x y", "DEBUG "]) for k in keys}
+    return plan
 
 
 _LINES: dict[str, int] = {}
@@ -121,7 +149,8 @@ def import_lines(module: str, form: str) -> int:
     return _LINES[key]
 
 
-def _probe(imports: list[list[str]], hashseed: int, fault: dict[str, Any] | None = None) -> dict[str, Any]:
+def _probe(imports: list[list[str]], hashseed: int, fault: dict[str, Any] | None = None,
+           werror_cold: bool = False, environ: dict[str, str] | None = None) -> dict[str, Any]:
     ms = modules()
     done = {m for m, _ in imports}
     rest = [m for m in ["chart"] + ms if m not in done]
@@ -137,9 +166,21 @@ def _probe(imports: list[list[str]], hashseed: int, fault: dict[str, Any] | None
     from detsim.runner import SLICES
 
     penv.update((SLICES.get(os.environ.get("VERIF_SLICE_NAME") or "") or {}).get("env", {}))
+    penv.update(environ or {})
+    cold_dir = None
+    if werror_cold:
+        import tempfile
+
+        cold_dir = tempfile.mkdtemp(prefix="pyc-cold-", dir=env.scratch())
+        penv["PYTHONPYCACHEPREFIX"] = cold_dir
+        req["werror"] = True
     p = subprocess.run([env.PYTHON] + flags + ["-m", "detsim.importprobe"], input=json.dumps(req),
                        capture_output=True, text=True, timeout=150,
                        env=penv, cwd=env.VERIF_ROOT, encoding="utf-8")
+    if cold_dir:
+        import shutil
+
+        shutil.rmtree(cold_dir, ignore_errors=True)
     if p.returncode != 0 or not p.stdout.strip():
         return {"ok": False, "failed": {"module": "?", "form": "?", "phase": "interpreter",
                                         "type": "InterpreterExit", "step": -1,
@@ -181,7 +222,8 @@ def execute(plan: dict[str, Any]) -> dict[str, Any]:
                 return {"violations": [], "digest": "no-lines", "evals": 1, "nontrivial": [],
                         "sub_batch": plan["kind"], "discarded": {"no-package-lines-in-import": 1}}
             fault = {"step": 0, "at": 1 + int(plan["fault"]["frac"] * n) % n}
-        got = _probe(plan["imports"], plan["hashseed"], fault=fault)
+        got = _probe(plan["imports"], plan["hashseed"], fault=fault,
+                     werror_cold=bool(plan.get("werror_cold")), environ=plan.get("environ"))
         hist = " -> ".join(f"{m}[{f}]" for m, f in plan["imports"])
         if fault is not None:
             fr = got.get("fault") or {}
@@ -255,6 +297,8 @@ def execute(plan: dict[str, Any]) -> dict[str, Any]:
         "sub_batch": plan["kind"],
         "faults_fired": ({"import_interrupted": 1} if (got.get("fault") or {}).get("fired") else {}),
         "faults_configured": ({"import_interrupted": 1} if plan.get("fault") else {}),
+        "knobs": {**({"warnings_as_errors_nothing_compiled_yet": 1} if plan.get("werror_cold") else {}),
+                  **({"environment_variables_set_to_odd_values": 1} if plan.get("environ") else {})},
         "ops": len(plan["imports"]),
         "sample": {"imports": plan["imports"], "hashseed": plan["hashseed"]},
     }
